@@ -57,11 +57,12 @@ func TestMain(m *testing.M) {
 // ---------------------------------------------------------------- worker
 
 type violationReport struct {
-	Phase  string          `json:"phase"`
-	Index  uint64          `json:"index"`
-	Replay *kit.ReplayFile `json:"replay"`
-	Count  int             `json:"count"`
-	path   string
+	Phase     string          `json:"phase"`
+	Index     uint64          `json:"index"`
+	Replay    *kit.ReplayFile `json:"replay"`
+	Count     int             `json:"count"`
+	path      string
+	freshOnly bool
 }
 
 type workerResult struct {
@@ -245,7 +246,14 @@ func worker(t *testing.T) {
 				fmt.Println("=== first\n" + strings.Join(out.Log, "\n") + "\n=== replay\n" + strings.Join(again.Log, "\n"))
 			}
 			if !kit.SameFailure(again.Violation, out.Violation) || again.LogHash() != out.LogHash() {
-				res.Nondet = append(res.Nondet, fmt.Sprintf("%s/%d: first %v, replay %v", ph.Name, i, out.Violation, again.Violation))
+				// Not reproducible inside this process. Either the code under test has a wake-up the simulator does not
+				// control, or it keeps state across executions in one process (a package-level variable), in which case the
+				// tape still reproduces the violation in a FRESH process. Hand it to the master unminimised: it replays every
+				// violation in a fresh process anyway and reports only what reproduces there.
+				res.Violations[key] = &violationReport{Phase: ph.Name, Index: i, Count: 1, freshOnly: true, Replay: &kit.ReplayFile{Property: p.ID(), Class: out.Violation.Class,
+					Signature: out.Violation.Signature, Message: out.Violation.Message + "\n  (did not show again when re-executed in the same process: reproduces only from a fresh process, i.e. the code under test carries state from one execution to the next)",
+					VerifSeed: base, RunIndex: i, RunSeed: tape.Seed, Tier: tier, Phase: ph.Name, Lanes: lanes, Fixed: tape.Fixed, Scenario: out.Scenario, LogTail: tail(out.Log, 40)}}
+				res.Nondet = append(res.Nondet, fmt.Sprintf("%s/%d: %s [%s]", ph.Name, i, out.Violation.Class, out.Violation.Signature))
 				continue
 			}
 			rf := &kit.ReplayFile{Property: p.ID(), Class: out.Violation.Class, Signature: out.Violation.Signature, Message: out.Violation.Message,
@@ -314,6 +322,9 @@ func replay(t *testing.T) {
 		t.Fatalf("unknown property %q", rf.Property)
 	}
 	tape := kit.ReplayTape(rf.RunSeed, rf.Lanes)
+	if os.Getenv("SIM_REPLAY_GENERATE") != "" {
+		tape = kit.NewTape(rf.RunSeed) // no recorded choices: draw them from the seed
+	}
 	tape.Fixed = rf.Fixed
 	if rf.Class == "process-death" {
 		// no tape could be recorded: regenerate the run from (seed, phase, index)
@@ -665,7 +676,7 @@ func master() int {
 	if len(merged.Nondet) > 0 {
 		// A violation that does not replay from its own tape is never reported. If other violations did replay (each was
 		// re-executed in a fresh process above) they stand on their own; otherwise nothing can be claimed either way.
-		fmt.Fprintf(os.Stderr, "warning: %d violation(s) did not replay identically from their own tape and are not reported (the code under test has a source of nondeterminism the simulator does not control):\n  %s\n", len(merged.Nondet), strings.Join(firstN(merged.Nondet, 5), "\n  "))
+		fmt.Fprintf(os.Stderr, "warning: %d violating run(s) did not show the same violation when re-executed in the same process (uncontrolled wake-up or state kept across executions in the code under test); such a violation is reported only if its replay file reproduces it in a fresh process:\n  %s\n", len(merged.Nondet), strings.Join(firstN(merged.Nondet, 5), "\n  "))
 		if unlisted == 0 {
 			infra++
 		}
